@@ -1,6 +1,7 @@
 package eng
 
 import (
+	"encoding/json"
 	"reflect"
 
 	"github.com/mlange-42/ark/ecs"
@@ -74,7 +75,37 @@ func (it *Interp) opRoundtrip(op *Op) {
 		}
 	}
 	w2 := NewBackend("W2", b0.Cfg, Policy{})
-	w2.U.LoadEntities(&dump0)
+	// a dump is made to be stored: every other case it goes through encoding/json before it is loaded
+	if it.Step%2 == 0 {
+		js, err := json.Marshal(dump0)
+		var dj ecs.EntityDump
+		if err == nil {
+			err = json.Unmarshal(js, &dj)
+		}
+		if err != nil {
+			fail("roundtrip|json|error", "EntityDump does not survive encoding/json: %v", err)
+		}
+		if len(dj.Entities) == 0 {
+			dj.Entities = nil
+		}
+		if len(dj.Alive) == 0 {
+			dj.Alive = nil
+		}
+		cmp := copyDump(dump0)
+		if len(cmp.Entities) == 0 {
+			cmp.Entities = nil
+		}
+		if len(cmp.Alive) == 0 {
+			cmp.Alive = nil
+		}
+		if !reflect.DeepEqual(dj, cmp) {
+			fail("roundtrip|json|differs", "EntityDump after a JSON round trip differs:\n%+v\n%+v", dj, cmp)
+		}
+		w2.U.LoadEntities(&dj)
+		it.count("roundtrip-through-json")
+	} else {
+		w2.U.LoadEntities(&dump0)
+	}
 	dump1 := b1.U.DumpEntities()
 	if !reflect.DeepEqual(dump0, dump1) {
 		fail("roundtrip|dump|nondeterministic", "two worlds with the same history produce different dumps:\n%v\n%v", dump0, dump1)
